@@ -1223,6 +1223,12 @@ class Interp(object):
         tags = frozenset()
         indef = False
         for p in parts:
+            if p is not None and self.api.definitely_not_integer(p):
+                # x[a:b] with a bound that is a float for certain (the result of `/`, a float literal ...): TypeError for every input
+                self.emit("type-error", fr, e, what="slice bound is a float (`%s`): slice indices must be integers" % " ".join(ast.unparse(e).split()))
+            if p is not None and p.kind == K_NONE and False:
+                pass
+        for p in parts:
             if p is not None:
                 for at in p.atoms():
                     alg[at] = alg_lub(alg.get(at, CONST), p.a(at))
